@@ -1,6 +1,7 @@
 package main
 
 import (
+	"fmt"
 	"go/ast"
 	"sort"
 	"strings"
@@ -272,6 +273,68 @@ func checkC05(p *Prog, r *Report) {
 		ok := len(got) == 1 && got[0] == want && tbOK
 		r.Check(ok, "request builder "+f.Name, p.Pos(f.Body.Pos()), "carries "+want+"(agent tie-breaker)",
 			"builder carries "+strings.Join(got, ",")+" (tie-breaker from Agent.tieBreaker: "+boolStr(tbOK)+"), expected exactly "+want)
+	}
+
+	// ---- R5.4 a role switch replaces the selector ---------------------------------------------------------
+	r.Rule("R5.4", "setSelector installs, on every path, a freshly built selector whose kind follows the role flag (controlling -> controllingSelector, otherwise controlledSelector), wrapped for a lite agent, started before it is installed; nothing else decides which selector is used.", 1)
+	if f := p.Fn("Agent.setSelector"); r.Anchor("Agent.setSelector", f != nil) {
+		t := p.NewTable(f)
+		t.Event = func(n ast.Node, _ *TEnv) []string {
+			var out []string
+			ast.Inspect(n, func(x ast.Node) bool {
+				if cl, ok := x.(*ast.CompositeLit); ok {
+					switch typeStr(p.TypeOf(cl)) {
+					case "ice.controllingSelector":
+						out = append(out, "new:controlling")
+					case "ice.controlledSelector":
+						out = append(out, "new:controlled")
+					case "ice.liteSelector":
+						out = append(out, "wrap:lite")
+					}
+				}
+				return true
+			})
+			for _, c := range p.NodeCalls(n) {
+				if strings.HasSuffix(p.CalleeName(c), "pairCandidateSelector.Start") {
+					out = append(out, "start")
+				}
+			}
+			if as, ok := n.(*ast.AssignStmt); ok {
+				for _, l := range as.Lhs {
+					if p.IsField(l, "Agent.selector") {
+						out = append(out, "install")
+					}
+				}
+			}
+			return out
+		}
+		t.Run()
+		bad := ""
+		for _, pa := range t.Paths {
+			role, lite := "", ""
+			for _, d := range pa.Hist {
+				switch {
+				case p.isMethodOnField(d.Atom.X, "Agent.isControlling", "Load"):
+					role = d.Val
+				case p.IsField(d.Atom.X, "Agent.lite"):
+					lite = d.Val
+				default:
+					bad = "the selector choice depends on " + stripVarLines(d.Atom.Key)
+				}
+			}
+			want := "new:controlled"
+			if role == "true" {
+				want = "new:controlling"
+			}
+			if lite == "true" {
+				want += ",wrap:lite"
+			}
+			want += ",start,install"
+			if got := strings.Join(pa.Events, ","); got != want || role == "" || lite == "" {
+				bad = fmt.Sprintf("controlling=%s lite=%s does [%s], required [%s]", role, lite, got, want)
+			}
+		}
+		r.Check(bad == "" && len(t.Paths) == 4, "setSelector decision table", p.Pos(f.Body.Pos()), "4 rows", bad+": after a lost tie-break the agent keeps behaving in its old role (wrong control attribute, nominations ignored)")
 	}
 }
 
